@@ -17,6 +17,8 @@ import (
 	tmproto "github.com/cometbft/cometbft/proto/tendermint/types"
 	sdk "github.com/cosmos/cosmos-sdk/types"
 
+	markettypes "github.com/regen-network/regen-ledger/x/ecocredit/v3/marketplace/types/v1"
+
 	"verif/harness/chain"
 	"verif/harness/explore"
 	"verif/harness/scen"
@@ -80,6 +82,8 @@ func NewEnvClock(clock int) *Env {
 		// a buyer fee is in force, so that a purchase without a sufficient max fee is a message that FAILS in
 		// the handler (not in stateless validation), as often as the traces repeat it
 		scen.GovFeeParams(scen.G, "1", "0"), // 100%: a purchase of 0.5 x 3 owes a fee of 1
+		// a second allowed denom without a market (stake is the first): one MsgSell can then open two markets
+		scen.Msg("gov:allow-uusd", &markettypes.MsgAddAllowedDenom{Authority: scen.G.String(), BankDenom: "uusd", DisplayDenom: "usd", Exponent: 6}),
 	).Build(sc)
 	eco := sc.Eco.ExportGenesis(sctx, sc.Cdc)
 	dat, err := sc.DataSrv.ExportGenesis(sctx, sc.Cdc)
